@@ -40,6 +40,9 @@ var c20Kinds = []c20Kind{
 	{Name: "failing-layer", Arg: "bad.yaml", Fails: true},
 	{Name: "toml-stream", Arg: "s.toml", Resolves: true, Format: "toml", Want: `[{"k":1},{"k":2}]`},
 	{Name: "missing.yaml", Arg: "nope.yaml"},
+	{Name: "yml-layer", Arg: "y.z.yml", Resolves: true, Format: "yml", Want: `[{"p":1,"q":2}]`},
+	{Name: "virtual-of-yml", Arg: "y.z.toml", Resolves: true, Format: "toml", Want: `[{"p":1,"q":2}]`},
+	{Name: "json-layer-as-yaml", Arg: "j.yaml", Resolves: true, Format: "yaml", Want: `[{"j":[1,"x"]}]`},
 }
 
 func c20Setup(dir string) error {
@@ -50,6 +53,9 @@ func c20Setup(dir string) error {
 		"n.txt":    "hello\n",
 		"bad.yaml": "r: $required\n",
 		"s.yaml":   "k: 1\n---\nk: 2\n",
+		"y.yml":    "p: 1\n",
+		"y.z.yml":  "q: 2\n",
+		"j.json":   "{\"j\": [1, \"x\"]}\n",
 	}
 	for n, c := range files {
 		if err := os.WriteFile(filepath.Join(dir, n), []byte(c), 0o644); err != nil {
@@ -188,7 +194,7 @@ func c20Run(c *core.Ctx, invoke string, kinds []int) {
 		switch kd.Format {
 		case "json":
 			docs, perr = parseJSONStream(content)
-		case "yaml":
+		case "yaml", "yml":
 			var v any
 			v, perr = c14ParseText("yaml", content)
 			docs = []any{v}
@@ -279,7 +285,7 @@ func buildC20(tier string) *core.Plan {
 		Run:  func(c *core.Ctx, i int64) { c20Run(c, invs[i%2], all[i/2]) }}
 	return &core.Plan{
 		Spaces: []core.Space{sp},
-		Rule: "every argument vector of length 0..max over 12 argument kinds (short flag, --opt=value, --opt=file.yaml, word, -, existing non-bkl file, existing layer file, virtual name of another format, unsupported extension, layer whose evaluation fails, multi-document layer requested as TOML, missing .yaml name), " +
+		Rule: "every argument vector of length 0..max over 15 argument kinds (short flag, --opt=value, --opt=file.yaml, word, -, existing non-bkl file, existing layer file, virtual name of another format, unsupported extension, layer whose evaluation fails, multi-document layer requested as TOML, missing .yaml name), " +
 			"and vectors of length 5-8 of flags with one (thorough: two) non-flag argument(s) at every position; each invoked as recb (symlink to bklb) and as kubectl-bkl, with a recording stand-in on PATH",
 		Assumptions: []string{"the stand-in records argv and the content of every argument naming a regular file; file-argument content is parsed with encoding/json, yaml.v3 and go-toml called directly and compared with the known evaluated layers"},
 		Bounds:      map[string]any{"max_len_full": maxLen, "vectors": len(all), "kinds": nk},
